@@ -142,73 +142,8 @@ def core(r, lib, struct_name_guards=True):
                 okr = cs.node["dest"]["l"] == 0
                 r.ob("G1.recursive-result-unchanged", c.name, okr, "the renamed candidate's result is returned as is" if okr else "recursive result is post-processed", site=cs,
                      key="G1|recursive-ret")
-    # ---- G2: struct identifier slots
-    header = [e for e in R.emissions if e.kind == "header"]
-    type_slots = [(e, e.args[1][1]) for e in R.emissions if e.kind == "field" and len(e.args) == 2 and e.site.bb in R.child_loop["blocks"]]
-    producers = set()
-    sites = []
-    for e in header:
-        sites.append((e, e.args[0][1], "header"))
-    for e, a in type_slots:
-        sites.append((e, a, "field type"))
-    for e, a, what in sites:
-        srcs = _value_sources(b, strip(a, mir.VALUE_PRESERVING))
-        calls = [s for s in srcs if s[0] == "call"]
-        consts = [s for s in srcs if s[0] == "const"]
-        okp = all(s[1].endswith("Element::expand_name") for s in calls) and calls and all(s[1] == "String" for s in consts) and len(calls) + len(consts) == len(srcs)
-        r.ob("G3.struct-name-producer", "%s: %s slot %r" % (b.name, what, e.template), okp,
-             "struct identifier = expand_name(element, trace, hints)%s" % (" or the literal String for text-only children" if consts else "") if okp else
-             "struct identifier slot filled by %s" % [term_s(s)[:40] for s in srcs], site=e.site, key="G3|producer|%s|%s" % (what, e.template))
-        for s in calls:
-            producers.add(s[1])
-    # same hints / same trace for header and type slots
-    if header and type_slots:
-        h = [s for s in _value_sources(b, strip(header[0].args[0][1], mir.VALUE_PRESERVING)) if s[0] == "call"]
-        okg = True
-        for e, a in type_slots:
-            for s in [x for x in _value_sources(b, strip(a, mir.VALUE_PRESERVING)) if x[0] == "call"]:
-                if not h or len(s[2]) < 3 or len(h[0][2]) < 3 or not (mir.same_place_term(s[2][1], h[0][2][1]) and mir.same_place_term(s[2][2], h[0][2][2])):
-                    okg = False
-                elif not _is_loop_child(s[2][0]):
-                    okg = False
-        r.ob("G3.same-trace-and-hints", b.name, okg, "a child's field type and the child's own header are expand_name over the same trace vector and hint table, applied to that child" if okg else
-             "field-type slot and header slot use different trace/hint arguments", site=header[0].site, key="G3|same")
-        # push/pop discipline of the trace around the type slot
-        tr = strip(h[0][2][1]) if h else None
-        pushes = [cs for cs in b.calls() if cname(cs.node) == "std::vec::Vec::push" and _same_root(b, cs.node["args"][0], R, 3)]
-        pops = [cs for cs in b.calls() if cname(cs.node) == "std::vec::Vec::pop" and _same_root(b, cs.node["args"][0], R, 3)]
-        in_loop_push = [p for p in pushes if p.bb in R.child_loop["blocks"]]
-        in_loop_pop = [p for p in pops if p.bb in R.child_loop["blocks"]]
-        rec = [e for e in R.emissions if e.kind == "child-structs"]
-        okd = len(in_loop_push) == 1 and len(in_loop_pop) == 1 and len(pushes) == 2 and len(pops) == 2 and rec and \
-            all(b.dominates(in_loop_push[0].bb, e.site.bb) or True for e, _ in type_slots) and b.dominates(in_loop_pop[0].bb, rec[0].site.bb)
-        if okd:
-            pv = strip(term_of(b, in_loop_push[0].node["args"][1]))
-            okd = pv[0] == "call" and pv[1].endswith("Element::formatted_name") and _is_loop_child(pv[2][0])
-            gp = [guard_s(x) for x in guards_of(b, in_loop_push[0].bb, within=R.child_loop["blocks"])]
-            gq = [guard_s(x) for x in guards_of(b, in_loop_pop[0].bb, within=R.child_loop["blocks"])]
-            okd = okd and gp == gq
-        r.ob("G3.trace-push-pop", b.name, okd, "the child's formatted name is pushed before its type slot and popped before the recursive rendering (which pushes it again): both see the same trace" if okd else
-             "trace push/pop around the child type slot not balanced (pushes %d/%d, pops %d/%d)" % (len(in_loop_push), len(pushes), len(in_loop_pop), len(pops)),
-             site=in_loop_push[0] if in_loop_push else header[0].site, key="G3|pushpop")
-    # guards on the struct-name path: everything reachable from the producers and from the trace elements' producer
-    path_fns = set()
-    for p in list(producers) + ["formatted_name", "compute_name_hints"]:
-        for bd in lib.real_bodies():
-            if mir._norm(bd.name).endswith(p.split("::")[-1]) or mir._norm(bd.name) == p:
-                path_fns |= lib.reachable_from([bd.name])
-    reserved_calls = []
-    uniq_guards = []
-    for n in sorted(path_fns):
-        bd = lib.bodies[n]
-        for cs in bd.calls():
-            if cname(cs.node) in RESERVED_GUARDS:
-                reserved_calls.append(cs)
-            if cname(cs.node) == "std::vec::Vec::push":
-                g = guards_of(bd, cs.bb)
-                if any(x[0] == "call" and x[1] in CONTAINS and x[3] is False for x in g):
-                    uniq_guards.append(cs)
-    r.count("functions on the struct-name path", len(path_fns))
+    producers, header = g3_struct_names(r, lib, R)
+    path_fns, reserved_calls, uniq_guards = struct_name_path(r, lib, producers)
     hint_rules(r, lib, path_fns)
     hint_totality(r, lib, path_fns)
     if not struct_name_guards:
@@ -349,6 +284,96 @@ def map_coverage(r, lib, R):
         r.ob("G1.lookup-key-agrees", "%s: get_name(.., %s)" % (b.name, kind), ok, "looked up by the key the map stores (%s)" % (looked,) if ok else
              "the renderer looks up %s entries by %s, the map stores them under %s: the lookup misses and the unguarded raw name is emitted" % (kind, looked, want), site=cs,
              key="G1|keyagree|%s" % kind)
+
+
+def g3_struct_names(r, lib, R):
+    """G3: header slot and field-type slots are filled by the same producer over the same trace and hints; push/pop discipline
+    of the trace.  -> (set of producer paths, header emissions)"""
+    b = R.body
+    # ---- G2: struct identifier slots
+    header = [e for e in R.emissions if e.kind == "header"]
+    type_slots = [(e, e.args[1][1]) for e in R.emissions if e.kind == "field" and len(e.args) == 2 and e.site.bb in R.child_loop["blocks"]]
+    producers = set()
+    sites = []
+    for e in header:
+        sites.append((e, e.args[0][1], "header"))
+    for e, a in type_slots:
+        sites.append((e, a, "field type"))
+    for e, a, what in sites:
+        srcs = _value_sources(b, strip(a, mir.VALUE_PRESERVING))
+        calls = [s for s in srcs if s[0] == "call"]
+        consts = [s for s in srcs if s[0] == "const"]
+        okp = all(s[1].endswith("Element::expand_name") for s in calls) and calls and all(s[1] == "String" for s in consts) and len(calls) + len(consts) == len(srcs)
+        r.ob("G3.struct-name-producer", "%s: %s slot %r" % (b.name, what, e.template), okp,
+             "struct identifier = expand_name(element, trace, hints)%s" % (" or the literal String for text-only children" if consts else "") if okp else
+             "struct identifier slot filled by %s" % [term_s(s)[:40] for s in srcs], site=e.site, key="G3|producer|%s|%s" % (what, e.template))
+        for s in calls:
+            producers.add(s[1])
+    # same hints / same trace for header and type slots
+    if header and type_slots:
+        h = [s for s in _value_sources(b, strip(header[0].args[0][1], mir.VALUE_PRESERVING)) if s[0] == "call"]
+        okg = True
+        for e, a in type_slots:
+            for s in [x for x in _value_sources(b, strip(a, mir.VALUE_PRESERVING)) if x[0] == "call"]:
+                if not h or len(s[2]) < 3 or len(h[0][2]) < 3 or not (mir.same_place_term(s[2][1], h[0][2][1]) and mir.same_place_term(s[2][2], h[0][2][2])):
+                    okg = False
+                elif not _is_loop_child(s[2][0]):
+                    okg = False
+        r.ob("G3.same-trace-and-hints", b.name, okg, "a child's field type and the child's own header are expand_name over the same trace vector and hint table, applied to that child" if okg else
+             "field-type slot and header slot use different trace/hint arguments", site=header[0].site, key="G3|same")
+        # push/pop discipline of the trace around the type slot
+        tr = strip(h[0][2][1]) if h else None
+        pushes = [cs for cs in b.calls() if cname(cs.node) == "std::vec::Vec::push" and _same_root(b, cs.node["args"][0], R, 3)]
+        pops = [cs for cs in b.calls() if cname(cs.node) == "std::vec::Vec::pop" and _same_root(b, cs.node["args"][0], R, 3)]
+        in_loop_push = [p for p in pushes if p.bb in R.child_loop["blocks"]]
+        in_loop_pop = [p for p in pops if p.bb in R.child_loop["blocks"]]
+        rec = [e for e in R.emissions if e.kind == "child-structs"]
+        okd = len(in_loop_push) == 1 and len(in_loop_pop) == 1 and len(pushes) == 2 and len(pops) == 2 and bool(rec)
+        if okd:
+            # the recursive rendering (which pushes the child's name itself) never runs with the child's entry still on the
+            # trace: no path of one iteration leads from the push to the recursion without passing the pop
+            rec_bb = rec[0].value[3].bb if rec[0].value[0] == "call" and len(rec[0].value) > 3 else rec[0].site.bb
+            okd = rec_bb not in b.reach_from(in_loop_push[0].bb, avoid={in_loop_pop[0].bb, R.child_loop["header"]})
+        if okd:
+            pv = strip(term_of(b, in_loop_push[0].node["args"][1]))
+            okd = pv[0] == "call" and pv[1].endswith("Element::formatted_name") and _is_loop_child(pv[2][0])
+            gp = [guard_s(x) for x in guards_of(b, in_loop_push[0].bb, within=R.child_loop["blocks"])]
+            gq = [guard_s(x) for x in guards_of(b, in_loop_pop[0].bb, within=R.child_loop["blocks"])]
+            okd = okd and gp == gq
+        # the element's own entry of the trace (pushed outside the child loop) is exactly its formatted name
+        own_push = [p for p in pushes if p.bb not in R.child_loop["blocks"]]
+        if len(own_push) == 1:
+            ov = strip(term_of(b, own_push[0].node["args"][1]), mir.VALUE_PRESERVING)
+            oko = ov[0] == "call" and ov[1].endswith("Element::formatted_name") and strip(ov[2][0]) == ("arg", R.self_arg)
+            r.ob("G3.own-trace-entry", b.name, oko, "the element pushes exactly its own formatted name (the key of the hint table) onto the trace" if oko else
+                 "the element's own trace entry is %s, not formatted_name(self): header and hint key no longer agree" % term_s(ov)[:60], site=own_push[0], key="G3|own-entry")
+        r.ob("G3.trace-push-pop", b.name, okd, "the child's formatted name is pushed before its type slot and popped before the recursive rendering (which pushes it again): both see the same trace" if okd else
+             "trace push/pop around the child type slot not balanced (pushes %d/%d, pops %d/%d)" % (len(in_loop_push), len(pushes), len(in_loop_pop), len(pops)),
+             site=in_loop_push[0] if in_loop_push else header[0].site, key="G3|pushpop")
+    return producers, header
+
+
+def struct_name_path(r, lib, producers):
+    """functions on the struct-name path and the guard calls found there"""
+    # guards on the struct-name path: everything reachable from the producers and from the trace elements' producer
+    path_fns = set()
+    for p in list(producers) + ["formatted_name", "compute_name_hints"]:
+        for bd in lib.real_bodies():
+            if mir._norm(bd.name).endswith(p.split("::")[-1]) or mir._norm(bd.name) == p:
+                path_fns |= lib.reachable_from([bd.name])
+    reserved_calls = []
+    uniq_guards = []
+    for n in sorted(path_fns):
+        bd = lib.bodies[n]
+        for cs in bd.calls():
+            if cname(cs.node) in RESERVED_GUARDS:
+                reserved_calls.append(cs)
+            if cname(cs.node) == "std::vec::Vec::push":
+                g = guards_of(bd, cs.bb)
+                if any(x[0] == "call" and x[1] in CONTAINS and x[3] is False for x in g):
+                    uniq_guards.append(cs)
+    r.count("functions on the struct-name path", len(path_fns))
+    return path_fns, reserved_calls, uniq_guards
 
 
 def _uniqueness_guard(lib, c, c0):
@@ -507,8 +532,18 @@ def hint_rules(r, lib, path_fns):
     r.ob("H2.hint-key-inventory", "struct-name path", n_keys >= 2, "%d keyed accesses to the hint tables" % n_keys, key="H2|inventory")
     # H1: distinctness test over the whole candidate set
     found = False
-    for n in sorted(path_fns):
-        bd = lib.bodies[n]
+    from .common import look_through_private
+    from .. import desugar
+
+    def sep_bodies():
+        """bodies on the path that compute a length (-> usize), with their private helpers on the path looked through
+        (iterator chains stay calls: the rules below look at collect / min / max)"""
+        for n in sorted(path_fns):
+            bd = lib.bodies[n]
+            if bd.kind == "closure" or lib.fns.get(n, {}).get("output", {}).get("prim") != "usize":
+                continue
+            yield look_through_private(lib, bd, also=lambda cb, t: cb.name in path_fns and cb.kind != "closure")
+    for bd in sep_bodies():
         for cs in bd.calls():
             if cname(cs.node) == "std::iter::Iterator::collect":
                 targs = cs.node["callee"].get("targs", [])
@@ -525,12 +560,16 @@ def hint_rules(r, lib, path_fns):
                             if t[0] == "binop" and t[1] == "Eq":
                                 sides = [strip(t[2]), strip(t[3])]
                                 has_set = any(x[0] == "call" and x[1].endswith("::len") and any(st[0] == "call" and len(st) > 3 and st[3] == cs for st in mir.subterms(x)) for x in sides)
-                                has_all = any(x[0] == "call" and x[1].endswith("::len") and any(st == ("arg", 1) for st in mir.subterms(x)) for x in sides)
+                                src_coll = strip(term_of(bd, cs.node["args"][0]))
+                                while src_coll[0] == "call" and src_coll[2] and src_coll[1] != "std::ops::Index::index":
+                                    src_coll = strip(src_coll[2][0])
+                                # as many members as candidates: len of the candidate list, or of the very collection the set was built from
+                                has_all = any(x[0] == "call" and x[1].endswith("::len") and (any(st == ("arg", 1) for st in mir.subterms(x)) or
+                                                                                             mir.same_place_term(strip(x[2][0]), src_coll)) for x in sides)
                                 if has_set and has_all:
                                     found = True
     # H3: when no qualification length separates the candidates, the longest trace is used
-    for n in sorted(path_fns):
-        bd = lib.bodies[n]
+    for bd in sep_bodies():
         if not any(cname(cs.node) == "std::iter::Iterator::collect" and (cs.node["callee"].get("targs", [{}, {}])[1:] or [{}])[0].get("adt") in
                    ("std::collections::HashSet", "std::collections::BTreeSet") for cs in bd.calls()):
             continue
@@ -599,11 +638,70 @@ def hint_totality(r, lib, path_fns):
                 if len(nx) == 1:
                     coll, adapters = peel_iter(term_of(bd, nx[0].node["args"][0]))
                     fs = [e[3] for e in coll[2] if e != "*" and e[0] == "f"] if coll[0] == "proj" and coll[1][0] == "arg" else None
-                    g = guards_of(bd, cs.bb, within=lp[1])
+                    g = guards_of(bd, cs.bb, within=lp[1]) + guards_of(bd, lp[0])     # inside one iteration, and of the loop as a whole
                     adapters = [a for a in adapters if a not in ORDER_ONLY]     # the name table is a set of traces per name
                     okl = fs == ["children"] and not adapters and not g
                     why = "descends into every child unconditionally" if okl else "recursion over %s via %s under %s" % (fs, [a.rsplit("::", 1)[-1] for a in adapters], [guard_s(x) for x in g])
             r.ob("H4.descends-into-all-children", bd.name, okl, why, site=cs, key="H4|descend")
+    # H5: the recorded trace is the path from the element up to the root, the element's own name first: the collector
+    # pushes formatted_name(element) at one end on entry, records a copy, and pops the same end on exit; expand_name takes
+    # its suffix from the renderer's root-first stack, so hint n must count from the element's end
+    for bd, tab in collectors:
+        f = lib.fns.get(bd.name, {})
+        tr = [i + 1 for i, t in enumerate(f.get("inputs", [])) if t.get("s", "").startswith("&mut ") and t.get("adt") in ("std::collections::VecDeque", "std::vec::Vec")]
+        ok = False
+        why = "no trace parameter (a &mut VecDeque/Vec of names) found in the collector"
+        if len(tr) == 1:
+            ends = {"push_front": "front", "pop_front": "front", "push_back": "back", "pop_back": "back", "push": "back", "pop": "back", "insert": "?", "remove": "?"}
+            pushes = [cs for cs in bd.calls() if method(cs.node) in ("push_front", "push_back", "push", "insert") and cs.node["args"] and strip(term_of(bd, cs.node["args"][0])) == ("arg", tr[0])]
+            pops = [cs for cs in bd.calls() if method(cs.node) in ("pop_front", "pop_back", "pop", "remove") and cs.node["args"] and strip(term_of(bd, cs.node["args"][0])) == ("arg", tr[0])]
+            ok = len(pushes) == 1 and len(pops) == 1
+            why = "%d pushes / %d pops on the trace in the collector" % (len(pushes), len(pops))
+            if ok:
+                pv = strip(term_of(bd, pushes[0].node["args"][-1]), mir.VALUE_PRESERVING)
+                own = pv[0] == "call" and pv[1].endswith("Element::formatted_name") and strip(pv[2][0])[0] == "arg"
+                pe, qe = ends[method(pushes[0].node)], ends[method(pops[0].node)]
+                is_deque = f["inputs"][tr[0] - 1].get("adt") == "std::collections::VecDeque"
+                # nearest-first storage: a deque grown at the front.  (A Vec grown at the back stores root-first: then the
+                # comparison of prefixes in the separating-length function would count from the root.)
+                ok = own and pe == qe == ("front" if is_deque else "?") and not guards_of(bd, pushes[0].bb) and \
+                    not (set(bd.return_blocks()) & bd.reach_from(pushes[0].bb, avoid={pops[0].bb}))
+                why = "own formatted name pushed at the front on entry and popped from the front on every exit: recorded traces read element -> root" if ok else \
+                    "trace discipline: pushes the own formatted name=%s, push end=%s, pop end=%s (expected front/front on a VecDeque), unconditional and balanced=%s" % (
+                        own, pe, qe, not guards_of(bd, pushes[0].bb) and not (set(bd.return_blocks()) & bd.reach_from(pushes[0].bb, avoid={pops[0].bb})))
+        r.ob("H5.trace-reads-element-to-root", bd.name, ok, why, site=mir.line_of(bd.span), key="H5|direction")
+    # H6: the search for the separating length tries every candidate length 1..=shortest trace: the counting loop of the
+    # function that holds the distinctness test runs over 0..min(len of the traces)
+    for n in sorted(path_fns):
+        bd = lib.bodies[n]
+        if bd.kind == "closure" or not any(cname(cs.node) == "std::iter::Iterator::collect" and (cs.node["callee"].get("targs", [{}, {}])[1:] or [{}])[0].get("adt") in
+                                           ("std::collections::HashSet", "std::collections::BTreeSet") for cs in bd.calls()):
+            continue
+        ret_blocks = {x.bb for x in bd.calls() if cname(x.node) == "std::iter::Iterator::collect" and (x.node["callee"].get("targs", [{}, {}])[1:] or [{}])[0].get("adt") in
+                      ("std::collections::HashSet", "std::collections::BTreeSet")}     # the loop that holds the distinctness test
+        for cs in bd.calls():
+            if cname(cs.node) != "std::iter::Iterator::next":
+                continue
+            t = strip(term_of(bd, cs.node["args"][0]))
+            if t[0] == "local":
+                dd = [d for d in bd.defs().get(t[1], []) if d.si is not None and d.node["rv"]["k"] == "use"]
+                if len(dd) == 1:
+                    t = strip(term_of(bd, dd[0].node["rv"]["op"]))
+            while t[0] == "call" and t[1] == "std::iter::IntoIterator::into_iter":
+                t = strip(t[2][0])
+            lp = find_loop_of(bd, cs.bb)
+            if not (t[0] == "agg" and t[1] == "std::ops::Range") or lp is None or not (ret_blocks & lp[1]):
+                continue        # only the counting loop around the distinctness test
+            start, end = strip(t[3]["start"]), strip(t[3]["end"], mir.VALUE_PRESERVING)
+            e = end
+            if e[0] == "call" and e[1] in ("std::option::Option::unwrap_or", "std::option::Option::unwrap_or_default"):
+                e = strip(e[2][0])
+            is_min = e[0] == "call" and e[1] in ("std::iter::Iterator::min", "std::iter::Iterator::min_by_key") and any(st == ("arg", 1) for st in mir.subterms(e)) and \
+                any(x.endswith("::len") for x in _closure_calls(lib, e))
+            ok = start == ("const", 0) and is_min
+            r.ob("H6.search-covers-every-length", bd.name, ok, "candidate lengths 1..=shortest trace are all tried (0..min len)" if ok else
+                 "the counting loop runs over %s..%s, not 0..min(trace lengths): some separating length is never tried and the fallback (longest trace) over-qualifies" % (
+                     term_s(start)[:20], term_s(end)[:60]), site=cs, key="H6|range")
     # the hint table itself
     from .common import normal_form
     for n in sorted(path_fns):
@@ -651,6 +749,8 @@ def _closure_calls(lib, t):
     for st in mir.subterms(t):
         if st[0] in ("fn", "agg") and isinstance(st[1], str) and st[1] in lib.bodies:
             out += [cname(c.node) for c in lib.bodies[st[1]].calls()]
+        elif st[0] == "fn" and isinstance(st[1], str):
+            out.append(mir._norm(st[1]))        # a function item used as the mapping function (e.g. VecDeque::len)
     return out
 
 
